@@ -661,8 +661,13 @@ def analyse(rec, c, k, out_path, inp_path, payload, driver=None):
         if len(toks) != len(c['outputs']):
             V('C14', 'row_malformed', 'column_count', f"line {lineno}: {len(toks)} output tokens for {len(c['outputs'])} OUTPUTs")
     # --- C13: row count ---------------------------------------------------------------
+    nin_ = len(c['inputs'])
+
     def _key(b):
-        return b.decode('utf-8', 'replace').replace('\n', ';').replace(', ', ':')
+        # the sampled entries are the last lines written to the iteration's private input file (the driver may append
+        # them to a copy of the base input or rewrite the whole file)
+        lines_ = [x for x in b.decode('utf-8', 'replace').split('\n') if x.strip()]
+        return ''.join(x.replace(', ', ':') + ';' for x in lines_[-nin_:])
     for it in iters:
         it['key'] = _key(it['entries'])
     row_keys = collections.Counter(';'.join(f'{n}:{v}' for n, v in pairs) + ';' for _, _, pairs, _ in rows)
